@@ -101,22 +101,23 @@ func planName(k string) string {
 
 func C02(o *core.Options) int {
 	r := core.NewReport(o, "exploration",
-		"for every world (model family representatives x tuple subsets of size<=2) and every request: commands.CheckQuery over the real resolver chain with a scripted planner, under EVERY assignment of an offered strategy to every consulted plan key (closure), x 3 tuning corners (breadth limit, read concurrency, dispatch throttling), each run twice; plus the request set of each world run concurrently on one resolver; plus ListObjects through servers with different pipeline/breadth tunings; oracle: one outcome per request, equal to the reference; non-trivial = requests for which some plan key offered more than one strategy (distinct by world+request)")
+		"for every world (model family representatives x tuple subsets of size<=2) and every request: commands.CheckQuery over the real resolver chain with a scripted planner, under EVERY assignment of an offered strategy to every consulted plan key (closure), x 3 tuning corners (breadth limit, read concurrency, dispatch throttling; in quick the two non-default corners run the default assignment only), each run twice; plus the request set of each world run concurrently on one resolver; plus ListObjects through servers with different pipeline/breadth tunings; oracle: one outcome per request, equal to the reference; non-trivial = requests for which some plan key offered more than one strategy (distinct by world+request)")
 	r.Assume("memory datastore; whole-engine runs use the Go scheduler's own interleaving (one per run); schedule-quantified clauses are decided by the E1 harnesses (C21/C22)",
-		"model family as in C01 (one model per every 4th r0-signature class in quick)")
+		"model family as in C01 (quick: one model of every 24th r0-signature class, of every 2nd twin-branch class and of every 9th mixed-parent tuple-to-userset class, rotated by VERIF_SEED; thorough: every class)")
 	if o.Replay != "" {
 		return replayC02(o, r)
 	}
 	all := e2.ValidModels(ref.Family(ref.FamilyOpts{Conds: true}))
 	reps := ref.Representatives(all, 1, o.Seed)
 	var models []*ref.Model
-	stride := 12
+	stride, r1stride, twinstride := 24, 9, 2
 	if o.Thorough() {
-		stride = 1
+		stride, r1stride, twinstride = 1, 1, 1
 	}
 	for i, m := range reps {
-		// the twin-branch classes and every 3rd mixed-parent TTU class are always in
-		if i%stride == int(o.Seed)%stride || m.IsTwin() || (strings.Contains(m.Signature(), "|r1=") && i%3 == 0) {
+		// quick: every 24th class, every 2nd twin-branch class and every 9th mixed-parent TTU class (rotated by the seed)
+		k := i + int(o.Seed)
+		if k%stride == 0 || (m.IsTwin() && k%twinstride == 0) || (strings.Contains(m.Signature(), "|r1=") && k%r1stride == 0) {
 			models = append(models, m)
 		}
 	}
@@ -174,7 +175,7 @@ func C02(o *core.Options) int {
 					outcomes := map[string]string{}
 					multi := false
 					for _, eng := range engines {
-						_, capped := EnumerateAssignments(func(a map[string]string) (map[string][]string, map[string]string) {
+						one := func(a map[string]string) (map[string][]string, map[string]string) {
 							eng.sp.Reset(a)
 							got := eng.check(env, ts, n.Obj, n.Rel, sub, rc)
 							again := eng.check(env, ts, n.Obj, n.Rel, sub, rc)
@@ -197,7 +198,14 @@ func C02(o *core.Options) int {
 								outcomes[id+"#repeat"] = again.V
 							}
 							return off, ch
-						}, 64)
+						}
+						if !o.Thorough() && eng != engines[0] {
+							// quick: the tuning corners run the default assignment only; the closure of all
+							// assignments is enumerated on the default tuning (thorough: on every tuning)
+							one(map[string]string{})
+							continue
+						}
+						_, capped := EnumerateAssignments(one, 64)
 						if capped {
 							r.NotExhaustive("assignment closure cap (64) hit")
 						}
@@ -289,14 +297,25 @@ func C02(o *core.Options) int {
 			}
 		}
 	}
+	phase := time.Now()
+	lap := func(name string) {
+		r.Set("phase_wall_s/"+name, time.Since(phase).Seconds())
+		phase = time.Now()
+	}
+	// the narrow, schedule- and seam-level parts first: they must not be the ones a deadline cuts
+	c02Reducers(o, r)
+	lap("reducers")
+	c02FastPaths(o, r)
+	lap("fastpaths")
 	so := e2.SweepOpts{K: 2, ServerOpts: []server.OpenFGAServiceV1Option{server.WithRequestTimeout(0)}}
 	e2.Sweep(r, models, so, body)
+	lap("main")
 	// nested set operators over one object (ref.FlatFamily), up to 4 tuples
 	so.K, so.U = 4, ref.FlatUniverse()
 	nodes = e2.RequestNodes(so.U)
 	flat := e2.ValidModels(ref.FlatFamily())
 	if !o.Thorough() {
-		flat = ref.EveryNth(flat, 2, int(o.Seed))
+		flat = ref.EveryNth(flat, 4, int(o.Seed))
 	}
 	r.Set("flat_family_models", len(flat))
 	e2.Sweep(r, flat, so, func(env *e2.Env, w *ref.World) {
@@ -304,9 +323,9 @@ func C02(o *core.Options) int {
 		body(env, w)
 	})
 	nodes = e2.RequestNodes(ref.DefaultUniverse())
+	lap("flat")
 	c02ListObjects(o, r, models)
-	c02Reducers(o, r)
-	c02FastPaths(o, r)
+	lap("listobjects")
 	return r.Finish()
 }
 
@@ -334,8 +353,8 @@ func c02ListObjects(o *core.Options, r *core.Report, models []*ref.Model) {
 		{"weighted", []server.OpenFGAServiceV1Option{server.WithExperimentals("enable-list-objects-optimizations")}},
 	}
 	sub := models
-	if !o.Thorough() && len(sub) > 60 {
-		sub = sub[:60]
+	if !o.Thorough() && len(sub) > 20 {
+		sub = sub[:20]
 	}
 	u := ref.DefaultUniverse()
 	r.Parallel(len(sub), func(i int) {
@@ -409,6 +428,35 @@ func c02ListObjects(o *core.Options, r *core.Report, models []*ref.Model) {
 								if w.CycleUnderExclusion(ob, tr[1]) {
 									sig += "/cycle-in-exclusion-subtrahend"
 									break
+								}
+							}
+							if sig == "listobjects-set-differs-from-reference" {
+								// only failures, and some valid tuple is unevaluable under the request context although
+								// it decides no object: which tunings consult it is engine dependent
+								uneval := false
+								for _, t := range ts {
+									if w.Valid(t) && ref.CondVal(t, rc) == ref.E {
+										uneval = true
+									}
+								}
+								var failing []string
+								onlyFailures := true
+								for name, v := range outs {
+									if strings.HasPrefix(v, "ERR") {
+										failing = append(failing, name)
+									} else if v != wantS {
+										onlyFailures = false
+									}
+								}
+								sort.Strings(failing)
+								if uneval && onlyFailures && len(failing) > 0 {
+									which := "some-tunings:" + strings.Join(failing, "+")
+									if len(failing) == len(outs) {
+										which = "every-tuning"
+									} else if len(failing) == 1 {
+										which = "only:" + failing[0]
+									}
+									sig += "/failure-on-unevaluable-condition-that-decides-no-object/" + which
 								}
 							}
 							r.Violate(sig, fmt.Sprintf("ListObjects(%s#%s@%s ctx=%s) by tuning=%v reference=%s model{%s} tuples{%s}", tr[0], tr[1], s, e2.CtxStr(rc), outs, wantS, m, e2.TuplesStr(ts)),
